@@ -39,6 +39,7 @@ ENVS = [
     Env(10, 4, 40, 44, None, (40, 44)),    # 7 size of 2 with other pixels (ioctl) -> (4, 11); swapped (4, 10):
                                            #   2 -> (0 with queries disabled: nothing determined) -> 7 is a change of
                                            #   the size in cells that a one-entry cache left un-updated would miss
+    Env(8, 5, 0, 0, None, (24, 45)),       # 8 other size, again no pixels from ioctl: query -> (3, 9); swapped (5, 4)
 ]
 
 FACTS = dict(name=("kitty", "0.30.1"), fg=(255, 255, 255), bg=(0, 0, 0))
@@ -183,6 +184,13 @@ class Model:
             yield st._replace(queries=bool(op[1])), None, ()
         elif k == "cell_size":
             yield from self._get_cell(st, lenient)
+        elif k == "cell_size_silent":
+            # the terminal answers this get's query too late (if it needs one): the documented outcome
+            # is "undetermined", which may be memoized like any other result for this size
+            yield from self._get_cell(st, lenient)
+            e = self._env(st)
+            if st.queries and not (e.xpx and e.ypx) and (e.q_cell or e.q_area):
+                yield st._replace(cell=(self._size(st), st.swap, False, None)), None, ()
         elif k == "cell_size_int":
             # an interrupted get determines nothing and must memoize nothing; if the interruption
             # did not happen it is an ordinary get
@@ -263,7 +271,7 @@ class Model:
         else:
             raise ValueError(op)
 
-    CLAUSE = dict(cell_size="cell-size", cell_size_int="cell-size", cell_ratio="cell-ratio", ratio="set-cell-ratio", name="name-version",
+    CLAUSE = dict(cell_size="cell-size", cell_size_int="cell-size", cell_size_silent="cell-size", cell_ratio="cell-ratio", ratio="set-cell-ratio", name="name-version",
                   colors="fg-bg-colors", render="kitty-workaround", tsc="terminal-size-cached", cached="cached")
 
     def step(self, op, obs):
@@ -344,6 +352,8 @@ def _opname(op):
     k = op[0]
     if k == "cell_size_int":
         return f"get_cell_size() with {'KeyboardInterrupt' if op[2] == 'kbd' else 'termios.error'} at its tty call #{op[1]}"
+    if k == "cell_size_silent":
+        return "get_cell_size() while the terminal answers too late"
     if k == "ratio":
         return f"set_cell_ratio({op[1]}) [raised, get_cell_ratio() afterwards]"
     if k == "colors":
